@@ -1,4 +1,307 @@
-import Hive.Spec.Serix
-/-! # C03 — placeholder until the proofs land -/
+import Hive.Proofs.SerixCanonical
+/-!
+# C03 — the wire format is fixed; validated decoding accepts only canonical bytes
+
+Property theorems only.  Model: `Hive/Model/Serix.lean`.  The Lean encoder is the independent
+reference encoder of the tie (Go `Encode` is compared with it byte for byte); the `C03_layout_*`
+theorems pin that encoder to the documented layout independently of the decoder, and
+`C03_canonical` says that the validating decoder accepts no second byte string for a value.
+-/
 namespace Hive.Serix
+open Res
+
+/-! ## Canonicity -/
+
+/-- **C03, reverse direction.**  Whenever `Decode` with validation accepts `b` and consumes `n`
+bytes, re-encoding the decoded value with validation succeeds and yields exactly `b[:n]` — for every
+well-formed schema (all array rules: bounds, lexical order, no duplicates, at most one of each
+type, must occur) and all inputs whose timestamps lie inside the int64-nanosecond range.
+
+The range condition is expressed through the decoder itself: `strictTime := true` makes the time
+decoder reject stamps above `MaxInt64` instead of saturating them (`C03_strict_time_refines`: what
+that decoder accepts, the real one accepts with the same result). -/
+theorem C03_canonical (t : Ty) (b : Bytes) (v : Val) (n : Nat) (hwf : t.wf = true)
+    (h : decode t b ⟨true, true⟩ = .ok (v, n)) : encode t v ⟨true, false⟩ = .ok (b.take n) :=
+  cn_ty t hwf ⟨true, true⟩ ⟨true, false⟩ rfl rfl rfl b v n h true
+
+/-- The decoder with the strict timestamp rule refines the real decoder. -/
+theorem C03_strict_time_refines (t : Ty) (val : Bool) (b : Bytes) (r : Val × Nat)
+    (h : decode t b ⟨val, true⟩ = .ok r) : decode t b ⟨val, false⟩ = .ok r :=
+  sm_ty t val b r h
+
+/-- No malleability: two accepted inputs that decode to the same value agree on the bytes consumed. -/
+theorem C03_no_malleability (t : Ty) (b b' : Bytes) (v : Val) (n n' : Nat) (hwf : t.wf = true)
+    (h : decode t b ⟨true, true⟩ = .ok (v, n)) (h' : decode t b' ⟨true, true⟩ = .ok (v, n')) :
+    b.take n = b'.take n' := by
+  have h1 := C03_canonical t b v n hwf h
+  have h2 := C03_canonical t b' v n' hwf h'
+  rw [h1] at h2
+  exact Res.ok.inj h2
+
+/-- The saturating timestamp decoder is the documented exception: the stamp `2^64 - 1` is accepted
+and decodes to the same time as `MaxInt64` (the real decoder is not injective there), while the
+strict decoder of the theorem rejects it. -/
+theorem C03_time_saturation_witness :
+    decode .time [255, 255, 255, 255, 255, 255, 255, 255] ⟨true, false⟩ = .ok (.i 9223372036854775807, 8) ∧
+    decode .time [255, 255, 255, 255, 255, 255, 255, 127] ⟨true, false⟩ = .ok (.i 9223372036854775807, 8) ∧
+    decode .time [255, 255, 255, 255, 255, 255, 255, 255] ⟨true, true⟩ = .err := by
+  decide
+
+/-- Pointers to scalars are decodable but not encodable: without `wf` canonicity fails. -/
+theorem C03_pointer_target_witness :
+    decode (.ptr (.uint 2)) [5, 0] ⟨true, true⟩ = .ok (.some (.n 5), 2) ∧
+    encode (.ptr (.uint 2)) (.some (.n 5)) ⟨true, false⟩ = .err := by
+  decide
+
+/-! ## Layout -/
+
+theorem leBytes_getElem? (w n i : Nat) :
+    (leBytes w n)[i]? = if i < w then some (UInt8.ofNat (n / 256 ^ i % 256)) else none := by
+  induction w generalizing n i with
+  | zero => simp [leBytes]
+  | succ w ih =>
+    cases i with
+    | zero => simp [leBytes]
+    | succ i =>
+      simp only [leBytes, List.getElem?_cons_succ, ih, Nat.add_lt_add_iff_right]
+      congr 3
+      rw [Nat.pow_succ, Nat.mul_comm, Nat.div_div_eq_div_mul]
+
+/-- Unsigned numbers (and float bit patterns): `w` bytes, byte `i` is `x / 256^i mod 256` — little endian. -/
+theorem C03_layout_uint (w x : Nat) (o : Opts) (b : Bytes) (h : encode (.uint w) (.n x) o = .ok b) :
+    x < 256 ^ w ∧ b.length = w ∧ ∀ i, i < w → b[i]? = some (UInt8.ofNat (x / 256 ^ i % 256)) := by
+  simp only [encode, enc] at h
+  split at h
+  · rename_i hx
+    cases h
+    refine ⟨hx, leBytes_length w x, fun i hi => ?_⟩
+    rw [leBytes_getElem?, if_pos hi]
+  · contradiction
+
+/-- Signed numbers: two's complement of the value in `w` little-endian bytes. -/
+theorem C03_layout_int (w : Nat) (x : Int) (o : Opts) (b : Bytes) (h : encode (.int w) (.i x) o = .ok b) :
+    b.length = w ∧ ∀ i, i < w → b[i]? = some (UInt8.ofNat ((x % (256 : Int) ^ w).toNat / 256 ^ i % 256)) := by
+  simp only [encode, enc] at h
+  split at h
+  · cases h
+    refine ⟨leBytes_length w _, fun i hi => ?_⟩
+    rw [leBytes_getElem?, if_pos hi]
+  · contradiction
+
+/-- Booleans are written as the single byte 0 or 1 … -/
+theorem C03_layout_bool (v : Val) (o : Opts) (b : Bytes) (h : encode .bool v o = .ok b) :
+    (v = .n 0 ∧ b = [0]) ∨ (v = .n 1 ∧ b = [1]) := by
+  rcases v with x | x | x | x | ⟨x, y⟩ | _ | x | ⟨x, y⟩ <;> simp only [encode, enc] at h <;> (try contradiction)
+  split at h
+  · rename_i hx
+    cases h
+    have : x = 0 ∨ x = 1 := by omega
+    rcases this with rfl | rfl
+    · left; exact ⟨rfl, rfl⟩
+    · right; exact ⟨rfl, rfl⟩
+  · contradiction
+
+/-- … and nothing else is accepted for a boolean, with or without validation. -/
+theorem C03_layout_bool_strict (x : UInt8) (rest : Bytes) (o : Opts) (r : Val × Nat)
+    (h : decode .bool (x :: rest) o = .ok r) : (x = 0 ∧ r = (.n 0, 1)) ∨ (x = 1 ∧ r = (.n 1, 1)) := by
+  simp only [decode, dec] at h
+  split at h
+  · rename_i hx
+    cases h; left; exact ⟨by simpa using hx, rfl⟩
+  · split at h
+    · rename_i hx
+      cases h; right; exact ⟨by simpa using hx, rfl⟩
+    · contradiction
+
+/-- Byte slices: a length prefix of the configured width holding the payload length (little
+endian, range checked), then the payload. -/
+theorem C03_layout_bytes (lp : LP) (mn mx : Nat) (bs : Bytes) (o : Opts) (b : Bytes)
+    (h : encode (.bytes lp mn mx) (.x bs) o = .ok b) :
+    ∃ w, lp.width = some w ∧ bs.length < 256 ^ w ∧ b = leBytes w bs.length ++ bs := by
+  simp only [encode, enc] at h
+  split at h
+  · contradiction
+  · simp only [Res.bind_eq_ok, Res.require_eq_ok_iff, exists_and_left, exists_const, Res.pure_eq] at h
+    obtain ⟨_, p, hp, hb⟩ := h
+    cases hb
+    obtain ⟨w, hw, hl, rfl⟩ := writeLen_ok hp
+    exact ⟨w, hw, hl, rfl⟩
+
+/-- Strings: the same layout as byte slices. -/
+theorem C03_layout_str (lp : LP) (mn mx : Nat) (bs : Bytes) (o : Opts) (b : Bytes)
+    (h : encode (.str lp mn mx) (.x bs) o = .ok b) :
+    ∃ w, lp.width = some w ∧ bs.length < 256 ^ w ∧ b = leBytes w bs.length ++ bs := by
+  simp only [encode, enc] at h
+  split at h
+  · contradiction
+  · simp only [Res.bind_eq_ok, Res.require_eq_ok_iff, exists_and_left, exists_const, Res.pure_eq] at h
+    obtain ⟨_, p, hp, hb⟩ := h
+    cases hb
+    obtain ⟨w, hw, hl, rfl⟩ := writeLen_ok hp
+    exact ⟨w, hw, hl, rfl⟩
+
+/-- The only prefix widths are 1, 2 and 4 bytes. -/
+theorem C03_layout_prefix_width (lp : LP) (w : Nat) (h : lp.width = some w) : w = 1 ∨ w = 2 ∨ w = 4 := by
+  cases lp <;> simp [LP.width] at h <;> omega
+
+/-- Slices: element count in the configured prefix width, then the element encodings — a
+permutation of the encodings of the elements, which is the identity unless the settings ask for
+lexical ordering, in which case it is the byte-lexically sorted one. -/
+theorem C03_layout_slice (lp : LP) (r : Rules) (e : Ty) (vs : List Val) (o : Opts) (b : Bytes)
+    (h : encode (.slice lp r e) (.l vs) o = .ok b) :
+    ∃ w data, lp.width = some w ∧ vs.length < 256 ^ w ∧
+      mapMRes (fun v => encode e v o) vs = .ok data ∧
+      b = leBytes w vs.length ++ (if r.autoSort && r.lex then sortBytes data else data).flatten ∧
+      (r.autoSort && r.lex = true → (sortBytes data).Pairwise (fun x y => lexLe x y = true) ∧ (sortBytes data).Perm data) := by
+  simp only [encode, enc, Res.bind_eq_ok, Res.require_eq_ok_iff, exists_and_left, exists_const] at h
+  obtain ⟨_, _, _, data, hdata, hseq⟩ := h
+  obtain ⟨p, hp, _, _, rfl⟩ := encSeq_ok hseq
+  obtain ⟨w, hw, hl, rfl⟩ := writeLen_ok hp
+  have hlen : data.length = vs.length := by
+    obtain ⟨hd, _⟩ := mapMRes_ok hdata
+    rw [hd]; simp
+  rw [hlen] at hl
+  exact ⟨w, data, hw, hl, hdata, by rw [hlen], fun _ => ⟨isortBy_sorted id data, isortBy_perm id data⟩⟩
+
+/-- Maps: entry count in the configured prefix width, then the entries (key bytes followed by value
+bytes) in byte-lexical order — always, with or without validation. -/
+theorem C03_layout_map (lp : LP) (r : Rules) (k v : Ty) (kvs : List Val) (o : Opts) (b : Bytes)
+    (h : encode (.map lp r k v) (.l kvs) o = .ok b) :
+    ∃ w entries, lp.width = some w ∧ kvs.length < 256 ^ w ∧
+      mapMRes (encKV (fun a => encode k a o) (fun c => encode v c o)) kvs = .ok entries ∧
+      b = leBytes w kvs.length ++ (sortBytes entries).flatten ∧
+      (sortBytes entries).Pairwise (fun x y => lexLe x y = true) ∧ (sortBytes entries).Perm entries := by
+  simp only [encode, enc] at h
+  split at h
+  · contradiction
+  · simp only [Res.bind_eq_ok, Res.require_eq_ok_iff, exists_and_left, exists_const] at h
+    obtain ⟨_, data, hdata, hseq⟩ := h
+    obtain ⟨p, hp, _, _, rfl⟩ := encSeq_ok hseq
+    obtain ⟨w, hw, hl, rfl⟩ := writeLen_ok hp
+    have hlen : data.length = kvs.length := by
+      obtain ⟨hd, _⟩ := mapMRes_ok hdata
+      rw [hd]; simp
+    rw [hlen] at hl
+    have hs : (r.ordered.autoSort && r.ordered.lex) = true := by simp [Rules.ordered]
+    refine ⟨w, data, hw, hl, hdata, ?_, isortBy_sorted id data, isortBy_perm id data⟩
+    simp only [hs, if_true, hlen]
+
+/-- Type-code prefix: a struct registered with an object code starts with the code in its
+denotation's width (1 byte for uint8 codes, 4 bytes little endian for uint32 codes). -/
+theorem C03_layout_code (c : Code) (fs : Fields) (vs : List Val) (o : Opts) (b : Bytes)
+    (h : encode (.struct (some c) fs) (.l vs) o = .ok b) :
+    ∃ body, encFields fs vs o = .ok body ∧ b = leBytes c.den.width c.n ++ body ∧
+      (c.den.width = 1 ∨ c.den.width = 4) := by
+  simp only [encode, enc, Res.bind_eq_ok, Res.pure_eq] at h
+  obtain ⟨body, hbody, hb⟩ := h
+  cases hb
+  refine ⟨body, hbody, rfl, ?_⟩
+  cases c.den <;> simp [Den.width]
+
+/-- Optional fields: a uint32 little-endian marker holding the length of what follows — 0 for nil. -/
+theorem C03_layout_optional (t : Ty) (rest : Fields) (v : Val) (vs : List Val) (o : Opts) (b : Bytes)
+    (h : encFields (.cons true t rest) (v :: vs) o = .ok b) :
+    ∃ tail, encFields rest vs o = .ok tail ∧
+      ((v = .nil ∧ b = [0, 0, 0, 0] ++ tail) ∨
+       (v ≠ .nil ∧ ∃ fb, encode t v o = .ok fb ∧ b = leBytes 4 fb.length ++ fb ++ tail)) := by
+  simp only [encFields, Res.bind_eq_ok, Res.pure_eq] at h
+  obtain ⟨b1, h1, b2, h2, hb⟩ := h
+  cases hb
+  refine ⟨b2, h2, ?_⟩
+  rcases v with x | x | x | x | ⟨x, y⟩ | _ | x | ⟨x, y⟩
+  case nil => left; cases h1; exact ⟨rfl, rfl⟩
+  all_goals
+    right
+    simp only [Res.bind_eq_ok] at h1
+    obtain ⟨fb, hfb, hb1⟩ := h1
+    cases hb1
+    exact ⟨by simp, fb, hfb, rfl⟩
+
+/-- uint256: exactly 32 bytes, little endian. -/
+theorem C03_layout_u256 (x : Int) (o : Opts) (b : Bytes) (h : encode .u256 (.i x) o = .ok b) :
+    0 ≤ x ∧ b.length = 32 ∧ (leNat b : Int) = x ∧ b = leBytes 32 x.toNat := by
+  simp only [encode, enc] at h
+  split at h
+  · rename_i hx
+    cases h
+    have hlt : x.toNat < 256 ^ 32 := by
+      have : ((x.toNat : Nat) : Int) < ((256 ^ 32 : Nat) : Int) := by
+        rw [Int.toNat_of_nonneg hx.1]
+        have : ((256 ^ 32 : Nat) : Int) = (2 : Int) ^ 256 := by decide
+        omega
+      exact Int.ofNat_lt.1 this
+    refine ⟨hx.1, leBytes_length 32 _, ?_, rfl⟩
+    rw [leNat_leBytes_of_lt hlt, Int.toNat_of_nonneg hx.1]
+  · contradiction
+
+/-- Timestamps inside the int64-nanosecond range: the nanoseconds since the Unix epoch as a uint64,
+little endian. -/
+theorem C03_layout_time (ns : Nat) (o : Opts) (b : Bytes) (hr : ns ≤ maxInt64)
+    (h : encode .time (.i ns) o = .ok b) : b = leBytes 8 ns ∧ b.length = 8 ∧ leNat b = ns := by
+  simp only [encode, enc, timeToU64_natCast hr] at h
+  cases h
+  refine ⟨rfl, leBytes_length 8 ns, leNat_leBytes_of_lt ?_⟩
+  have : maxInt64 < 256 ^ 8 := by decide
+  omega
+
+/-! ## Golden vectors (tests, by evaluation) -/
+
+theorem C03_golden_scalars_example :
+    encode (.uint 2) (.n 0x1234) ⟨true, false⟩ = .ok [0x34, 0x12] ∧
+    encode (.uint 8) (.n 0x0102030405060708) ⟨true, false⟩ = .ok [8, 7, 6, 5, 4, 3, 2, 1] ∧
+    encode (.int 2) (.i (-2)) ⟨true, false⟩ = .ok [0xfe, 0xff] ∧
+    encode (.int 1) (.i (-128)) ⟨true, false⟩ = .ok [0x80] ∧
+    encode (.float 4) (.n 0x3f800000) ⟨true, false⟩ = .ok [0, 0, 0x80, 0x3f] ∧
+    encode .bool (.n 1) ⟨true, false⟩ = .ok [1] ∧
+    encode .time (.i 1000000000) ⟨true, false⟩ = .ok [0, 0xca, 0x9a, 0x3b, 0, 0, 0, 0] ∧
+    encode .u256 (.i 258) ⟨true, false⟩ = .ok ([2, 1] ++ List.replicate 30 0) := by
+  decide
+
+theorem C03_golden_prefixes_example :
+    encode (.str .u8 0 0) (.x [0x68, 0x69]) ⟨true, false⟩ = .ok [2, 0x68, 0x69] ∧
+    encode (.str .u16 0 0) (.x [0x68, 0x69]) ⟨true, false⟩ = .ok [2, 0, 0x68, 0x69] ∧
+    encode (.bytes .u32 0 0) (.x [9]) ⟨true, false⟩ = .ok [1, 0, 0, 0, 9] ∧
+    encode (.slice .u16 {} (.uint 1)) (.l [.n 7, .n 8]) ⟨true, false⟩ = .ok [2, 0, 7, 8] ∧
+    encode (.array 3 .u8 {} (.uint 2)) (.l [.n 1, .n 2, .n 3]) ⟨true, false⟩ = .ok [3, 1, 0, 2, 0, 3, 0] ∧
+    encode (.str .u64 0 0) (.x []) ⟨true, false⟩ = .err ∧
+    encode (.str .unset 0 0) (.x []) ⟨true, false⟩ = .err := by
+  decide
+
+/-- The serix_test.go `TestMinMax` fixture: `example{Str string minLen=5,maxLen=10,lenPrefix=uint8}`
+registered with object code uint8(0): "abcde" encodes to `00 05 61 62 63 64 65`; "abc" is refused. -/
+theorem C03_golden_minmax_example :
+    let t : Ty := .struct (some ⟨.u8, 0⟩) (.cons false (.str .u8 5 10) .nil)
+    encode t (.l [.x [97, 98, 99, 100, 101]]) ⟨true, false⟩ = .ok [0, 5, 97, 98, 99, 100, 101] ∧
+    encode t (.l [.x [97, 98, 99]]) ⟨true, false⟩ = .err ∧
+    decode t [0, 5, 97, 98, 99, 100, 101] ⟨true, false⟩ = .ok (.l [.x [97, 98, 99, 100, 101]], 7) ∧
+    decode t [0, 3, 97, 98, 99] ⟨true, false⟩ = .err := by
+  decide
+
+/-- The `MapStruct` fixture of `TestSerixSerializeMap` (21 bytes, entries sorted bytewise). -/
+theorem C03_golden_map_example :
+    let t : Ty := .struct none (.cons false (.map .u8 { min := 2, max := 4 } (.str .u16 2 5) (.str .u32 1 6)) .nil)
+    encode t (.l [.l [.kv (.x [107, 50]) (.x [118, 50]), .kv (.x [107, 49]) (.x [118, 49])]]) ⟨true, false⟩ =
+      .ok [2, 2, 0, 107, 49, 2, 0, 0, 0, 118, 49, 2, 0, 107, 50, 2, 0, 0, 0, 118, 50] := by
+  decide
+
+theorem C03_golden_optional_code_example :
+    let inner : Ty := .ptr (.struct (some ⟨.u32, 70000⟩) (.cons false (.uint 1) .nil))
+    let t : Ty := .struct (some ⟨.u8, 7⟩) (.cons true inner (.cons true inner .nil))
+    encode t (.l [.nil, .some (.l [.n 9])]) ⟨true, false⟩ =
+      .ok [7, 0, 0, 0, 0, 5, 0, 0, 0, 0x70, 0x11, 0x01, 0x00, 9] := by
+  decide
+
+/-! ## Non-vacuity of `C03_canonical` -/
+
+example :
+    let t : Ty := .struct (some ⟨.u8, 7⟩) (.cons false
+      (.slice .u8 { lex := true, noDups := true, max := 3 } (.str .u8 0 0)) (.cons true (.ptr (.struct (some ⟨.u8, 1⟩) .nil)) .nil))
+    t.wf = true ∧
+    decode t [7, 2, 1, 97, 1, 98, 1, 0, 0, 0, 1, 0xee] ⟨true, true⟩ = .ok (.l [.l [.x [97], .x [98]], .some (.l [])], 11) ∧
+    -- unsorted elements, a wrong marker, a big-endian looking prefix: all rejected
+    decode t [7, 2, 1, 98, 1, 97, 0, 0, 0, 0] ⟨true, true⟩ = .err ∧
+    decode t [7, 2, 1, 97, 1, 98, 2, 0, 0, 0, 1] ⟨true, true⟩ = .err ∧
+    decode t [7, 0, 2, 1, 97, 1, 98, 0, 0, 0, 0] ⟨true, true⟩ = .err := by
+  decide
+
 end Hive.Serix
